@@ -1,14 +1,235 @@
 import ScryerModel.Proofs.Cwil
+import ScryerModel.Proofs.CwilMech
 /-!
 # C40 — Inference-limited execution is deterministic and faithful
-(theorems are being added; see notes/design/C40.md)
+
+Model: `Scryer.Cwil` (Model/Cwil.lean).  The trace `⟨es, fin⟩` of `call(G)` lists the counted
+inferences (`tick`), the inferences refused by a limit inside `G` (`probe`) and the solutions of
+`G` in the order Prolog produces them; `limitGo bind s0 L es fin` is the trace of
+`call_with_inference_limit(G, L, R)` (`bind a s` unifies `R` with the atom `a` in state `s`, `s0` is
+the state at the call).  `passGo bind es fin` is `call(G)` with `R` added (`!` on a solution after
+which the search is over, `true` otherwise).  `fires L es`: the limit fires, i.e. the goal attempts
+an inference when `L` have been counted.  All statements are for every trace, hence for the traces
+`run` computes for every program, goal and fuel.
+
+The second part is about the counter itself: `mrun true` drives the literal mirror of `struct CWIL`
+(machine_state.rs) through the operations the library performs (`enter L` = install a counter,
+`tick` = `increment_call_count`, `leave` = remove the innermost counter; a firing limit unwinds to
+its level and runs the (repaired) handler), `srun` is the specification: a stack of remaining
+budgets, the outermost exhausted level fires.  `mrun false` is the handler of the pinned code
+(finding C40-1).
 -/
 namespace Scryer.Cwil
 open Scryer Scryer.Solve
 
-/-- With a budget of zero the first inference of the goal is refused. -/
-theorem C40_zero_budget (bind : String → St → Option St) (s0 : St) (es : List Ev) (fin : Fin) :
-    limit bind s0 0 ⟨.tick :: es, fin⟩ = exceededRes bind s0 := by
-  simp [limit, limitGo]
+variable (bind : String → St → Option St) (s0 : St)
+
+/-! ## Faithfulness -/
+
+/-- Below the limit nothing is lost or changed: if the goal needs fewer than `L` inferences the
+limited run IS `call(G)` with `R` added: same solutions, same bindings, same order, same ball. -/
+theorem C40_faithful_below_limit (L : Nat) (es : List Ev) (fin : Fin) (h : ticks es < L) :
+    limitGo bind s0 L es fin = passGo bind es fin :=
+  limitGo_of_not_fires bind s0 es L fin (fires_of_lt es L h)
+
+/-- More generally: whenever the limit does not fire the limited run is `call(G)` with `R`. -/
+theorem C40_faithful_if_not_exceeded (L : Nat) (es : List Ev) (fin : Fin) (h : fires L es = false) :
+    limitGo bind s0 L es fin = passGo bind es fin :=
+  limitGo_of_not_fires bind s0 es L fin h
+
+/-- If the limit fires, what was delivered before is exactly the consumed part of the goal's run
+with `R = true` on every solution, then `R = inference_limit_exceeded` once (bindings of the goal
+undone: state `s0`), and nothing is left to retry (`done`, no ball). -/
+theorem C40_exceeded_shape (L : Nat) (es : List Ev) (fin : Fin) (h : fires L es = true) :
+    limitGo bind s0 L es fin = ⟨annotTrue bind (passed L es) ++ (exceededRes bind s0).evs, .done⟩ :=
+  limitGo_of_fires bind s0 es L fin h
+
+/-! ## The limit is tight -/
+
+/-- For a goal that contains no inner limit: `inference_limit_exceeded` iff the goal needs more
+than `L` inferences (all solutions share the budget). -/
+theorem C40_tight (L : Nat) (es : List Ev) (h : hasProbe es = false) :
+    fires L es = true ↔ L < ticks es :=
+  fires_iff_ticks es L h
+
+/-- When the limit fires exactly `L` inferences were counted. -/
+theorem C40_budget_used_when_exceeded (L : Nat) (es : List Ev) (h : fires L es = true) :
+    ticks (passed L es) = L :=
+  ticks_passed_of_fires es L h
+
+/-! ## Monotonicity in L -/
+
+/-- `inference_limit_exceeded` at `L'` implies it at every `L ≤ L'`. -/
+theorem C40_exceeded_downward (L L' : Nat) (es : List Ev) (hl : L ≤ L') (h : fires L' es = true) :
+    fires L es = true :=
+  fires_mono es L L' hl h
+
+/-- Once the limit does not fire the result is the same for every larger limit. -/
+theorem C40_stable_above (L L' : Nat) (es : List Ev) (fin : Fin) (hl : L ≤ L')
+    (h : fires L es = false) : limitGo bind s0 L' es fin = limitGo bind s0 L es fin := by
+  have h' : fires L' es = false := by
+    cases hf : fires L' es with
+    | false => rfl
+    | true => rw [fires_mono es L L' hl hf] at h; exact absurd h (by simp)
+  rw [limitGo_of_not_fires bind s0 es L fin h, limitGo_of_not_fires bind s0 es L' fin h']
+
+/-- What is delivered under `L` before `inference_limit_exceeded` is delivered, identically and
+in the same order, as a prefix under every `L' ≥ L`. -/
+theorem C40_monotone_prefix (L L' : Nat) (es : List Ev) (fin : Fin) (hl : L ≤ L')
+    (h : fires L es = true) :
+    (limitGo bind s0 L es fin).evs = annotTrue bind (passed L es) ++ (exceededRes bind s0).evs ∧
+    ∃ t, (limitGo bind s0 L' es fin).evs = annotTrue bind (passed L es) ++ t := by
+  refine ⟨by rw [limitGo_of_fires bind s0 es L fin h], ?_⟩
+  cases hf : fires L' es with
+  | true =>
+    rw [limitGo_of_fires bind s0 es L' fin hf]
+    obtain ⟨t, ht⟩ := passed_prefix es L L' hl
+    exact ⟨annotTrue bind t ++ (exceededRes bind s0).evs, by simp [ht, annotTrue_append]⟩
+  | false =>
+    rw [limitGo_of_not_fires bind s0 es L' fin hf]
+    exact passGo_prefix_of_fires bind es L fin h
+
+/-! ## Nested limits -/
+
+/-- An enclosing counter sees exactly the inferences the inner call consumed: all of the goal's if
+the inner limit did not fire, exactly `L` if it did (the refused inference is not counted). -/
+theorem C40_outer_count (L : Nat) (es : List Ev) (fin : Fin) :
+    ticks (limitGo bind s0 L es fin).evs = if fires L es = true then L else ticks es := by
+  cases h : fires L es with
+  | true =>
+    rw [limitGo_of_fires bind s0 es L fin h]
+    simp [ticks_append, ticks_annotTrue, ticks_exceeded, ticks_passed_of_fires es L h]
+  | false =>
+    rw [limitGo_of_not_fires bind s0 es L fin h]
+    simp [ticks_passGo]
+
+/-- The inner call never costs the outer counter more than its own limit. -/
+theorem C40_outer_count_le (L : Nat) (es : List Ev) (fin : Fin) :
+    ticks (limitGo bind s0 L es fin).evs ≤ L ∧ ticks (limitGo bind s0 L es fin).evs ≤ ticks es := by
+  rw [C40_outer_count]
+  cases h : fires L es with
+  | true =>
+    have := ticks_passed_of_fires es L h
+    have h2 : ticks (passed L es) ≤ ticks es := by
+      obtain ⟨t, ht⟩ := passed_prefix es L (ticks es + 1) (by
+        cases hh : decide (L ≤ ticks es + 1) with
+        | true => exact of_decide_eq_true hh
+        | false =>
+          have : ticks es < L := by have := of_decide_eq_false hh; omega
+          rw [fires_of_lt es L this] at h; exact absurd h (by simp))
+      rw [passed_of_not_fires es _ (fires_of_lt es _ (Nat.lt_succ_self _))] at ht
+      have := congrArg ticks ht
+      rw [ticks_append] at this
+      omega
+    simp; omega
+  | false =>
+    simp
+    cases hl : decide (ticks es ≤ L) with
+    | true => exact of_decide_eq_true hl
+    | false =>
+      have := of_decide_eq_false hl
+      cases es with
+      | nil => simp at this
+      | cons e es' => exact absurd h (by
+          -- more ticks than the budget and no firing is impossible only without probes;
+          -- with probes the budget can also be hit early, never late
+          have hc : ∀ (es : List Ev) (b : Nat), fires b es = false → ticks es ≤ b := by
+            intro es
+            induction es with
+            | nil => intro b _; simp
+            | cons e es ih =>
+              intro b hb
+              cases e with
+              | tick =>
+                cases b with
+                | zero => simp [fires] at hb
+                | succ b => simp only [fires] at hb; have := ih b hb; simp; omega
+              | probe =>
+                cases b with
+                | zero => simp [fires] at hb
+                | succ b => simp only [fires] at hb; simpa using ih (b+1) hb
+              | ans s => simp only [fires] at hb; simpa using ih b hb
+          have := hc _ L h
+          omega)
+
+/-- Two nested limits around a goal without further limits: the outer limit fires iff it is at
+least as tight as the inner one (a tie goes to the outer limit, as `CWIL::add_limit` does not push
+a limit that is not strictly tighter) and the goal needs more: the effective limit is the minimum. -/
+theorem C40_nested_effective_limit (Lo Li : Nat) (es : List Ev) (fin : Fin) (h : hasProbe es = false) :
+    fires Lo (limitGo bind s0 Li es fin).evs = (decide (Lo ≤ Li) && fires Lo es) :=
+  fires_nested bind s0 es Lo Li fin h
+
+/-! ## The instrumented interpreter uses `limit` for the construct -/
+
+/-- The trace of `call_with_inference_limit(G, L, R)` (called without counting its own call) is
+`limit` applied to the trace of `G`; the inner run never needs more than `L + 1` inferences. -/
+theorem C40_run_unfold (prog : Prog) (n : Nat) (g1 l r g' : Term) (s : St) (b lim : Nat)
+    (hl : checkLimit n s.σ l = .ok lim) (hg : metaGoal n s.σ g1 = some g') :
+    run (n + 1) prog (.str "call_with_inference_limit" [g1, l, r]) s false b =
+      limit (bindWith n r) s lim (run n prog g' s true (if lim < b then lim + 1 else b)) := by
+  simp [run, step, withTick, hl, hg]
+
+/-- A negative limit is a domain error, an unbound one an instantiation error, anything else that
+is not an integer a type error (checked before the goal is run). -/
+theorem C40_limit_argument_errors (n : Nat) (σ : Subst) (l : Term) (v : Int) (hv : v < 0)
+    (h : walk n σ l = some (.int v)) :
+    checkLimit n σ l = .err (domErr "not_less_than_zero" (.int v)) := by
+  simp [checkLimit, h, hv]
+
+/-! ## The counter mechanism -/
+
+/-- The `CWIL` mirror (absolute limits on one shared local count, a limit pushed only if strictly
+tighter than the enclosing one, removal by block, repaired handler) behaves on EVERY sequence of
+operations exactly like a stack of independent remaining budgets in which the outermost exhausted
+level fires — whatever the local and global counts were before. -/
+theorem C40_mechanism_meets_spec (ops : List Op) (lc gc : Nat) :
+    mrun true ⟨⟨lc, gc, [], false⟩, 0⟩ ops = srun [] ops :=
+  run_sim ops _ _ (inv_init lc gc)
+
+/-- Determinism / independence of the machine state: which limit fires at which inference does not
+depend on the values of the inference counters before the call. -/
+theorem C40_initial_counts_irrelevant (ops : List Op) (lc gc : Nat) :
+    mrun true ⟨⟨lc, gc, [], false⟩, 0⟩ ops = mrun true ⟨CWIL.new, 0⟩ ops := by
+  rw [C40_mechanism_meets_spec, CWIL.new, C40_mechanism_meets_spec]
+
+/-- Counter stack invariant: after any sequence of operations the limit stack is the one determined
+by the active levels (only strict prefix minima are pushed), the flag is clear, and when every
+level has been left (normally, by a ball, or after its limit fired) the stack is empty again. -/
+theorem C40_counter_stack_restored (ops : List Op) (lc gc : Nat)
+    (h : sfinal [] ops = []) :
+    (mfinal true ⟨⟨lc, gc, [], false⟩, 0⟩ ops).c.limits = [] ∧
+    (mfinal true ⟨⟨lc, gc, [], false⟩, 0⟩ ops).depth = 0 ∧
+    (mfinal true ⟨⟨lc, gc, [], false⟩, 0⟩ ops).c.exceeded = false := by
+  have i := final_inv ops _ _ (inv_init lc gc)
+  rw [h] at i
+  exact ⟨by rw [i.lims]; rfl, by rw [i.depth]; rfl, i.flag⟩
+
+/-- The pinned handler (flag only cleared by `reset`, i.e. when no limit is left) violates the
+specification: after an inner limit (1) has fired inside an outer limit (5) the outer limit is
+never enforced (finding C40-1); the repaired handler fires it. -/
+theorem C40_pinned_handler_violates :
+    let ops := [Op.enter 5, .enter 1, .tick, .tick, .tick, .tick, .tick, .tick, .tick]
+    srun [] ops = [none, none, none, some 2, none, none, none, none, some 1] ∧
+    mrun true ⟨CWIL.new, 0⟩ ops = [none, none, none, some 2, none, none, none, none, some 1] ∧
+    mrun false ⟨CWIL.new, 0⟩ ops = [none, none, none, some 2, none, none, none, none, none] := by
+  decide
+
+/-! ## Non-vacuity -/
+
+def exS : St := ⟨[], 0⟩
+def exBind : String → St → Option St := fun a s => some ⟨("R", .atom a) :: s.σ, s.ctr⟩
+def exEs : List Ev := [.tick, .ans exS, .tick, .ans exS]
+def exR (s : St) : String := match lookup s.σ "R" with | some (.atom a) => a | _ => "?"
+
+/-- a goal with two solutions needing 1 + 1 inferences; limit 1: first solution with `true`, then
+exceeded; limit 2: both solutions, `true` then `!`. -/
+example : fires 1 exEs = true ∧ fires 2 exEs = false ∧
+    (answers (limitGo exBind exS 1 exEs .done).evs).map exR = ["true", "inference_limit_exceeded"] ∧
+    (answers (limitGo exBind exS 2 exEs .done).evs).map exR = ["true", "!"] := by
+  decide
+
+/-- tie of an inner and an outer limit: the outer one fires. -/
+example : fires 3 (limitGo (fun _ s => some s) ⟨[], 0⟩ 3 [.tick, .tick, .tick, .tick] .done).evs = true := by
+  decide
 
 end Scryer.Cwil
